@@ -51,6 +51,12 @@
 #ifndef VX_INJ_S3
 #define VX_INJ_S3 0
 #endif
+#ifndef VX_SPARSE
+#define VX_SPARSE -1      // id of a state that has injections but defines few or no callbacks itself (C15, C16)
+#endif
+#ifndef VX_SPARSE_SHAPE
+#define VX_SPARSE_SHAPE 1 // 1: no callback of its own; 2: only enter, update and exit
+#endif
 #ifndef VX_BARE
 #define VX_BARE 0
 #endif
@@ -330,6 +336,21 @@ template <int I> struct St : StBase<I, INJ_OF[I]>::Type {
 	using FullControl = typename Base::FullControl; using ConstControl = typename Base::ConstControl;
 	VX_CALLBACKS(St<I>, St<I>, I, 0)
 };
+#if VX_SPARSE >= 0
+template <> struct St<VX_SPARSE> : StBase<VX_SPARSE, INJ_OF[VX_SPARSE]>::Type {
+	using Base = typename StBase<VX_SPARSE, INJ_OF[VX_SPARSE]>::Type;
+	using GuardControl = typename Base::GuardControl; using PlanControl = typename Base::PlanControl;
+	using FullControl = typename Base::FullControl; using ConstControl = typename Base::ConstControl;
+#if VX_SPARSE_SHAPE == 2
+	void enter(PlanControl& c) { visit_life(c, VX_SPARSE, 0, M_ENTER, VX_THISOK(St<VX_SPARSE>, St<VX_SPARSE>)); }
+	void update(FullControl& c) { visit_full(c, VX_SPARSE, 0, M_UPDATE, VX_THISOK(St<VX_SPARSE>, St<VX_SPARSE>), nullptr); }
+	void exit(PlanControl& c) { visit_life(c, VX_SPARSE, 0, M_EXIT, VX_THISOK(St<VX_SPARSE>, St<VX_SPARSE>)); }
+#endif
+};
+#endif
+// does the state class itself (not one of its injections) define this callback?
+inline bool own_defined(int sid, int meth) { return sid != VX_SPARSE || (VX_SPARSE_SHAPE == 2 && (meth == M_ENTER || meth == M_UPDATE || meth == M_EXIT)); }
+
 #if VX_HEAD
 struct Rt : RtBase<INJ_ROOT>::Type {
 	using Base = RtBase<INJ_ROOT>::Type;
